@@ -363,6 +363,41 @@ def bindParams : List String → List (Option Expr) → List (Val K) → List (S
         pure (vs, (p, e) :: pend)
       | _ => throw (.raise "TypeError")
 
+def dunderOf : CmpOp → Option String
+  | .eq => some "__eq__" | .ne => some "__ne__" | .lt => some "__lt__" | .le => some "__le__"
+  | .gt => some "__gt__" | .ge => some "__ge__" | _ => Option.none
+
+/-- the translated method `name` of the class of the object `a`, if `a` is an object with one -/
+def userMethod (env : Env K) (st : St K) (a : Val K) (name : Option String) : Option FunDef :=
+  match a, name with
+  | .ref addr, some d =>
+    (match st.heap addr "__class__" with
+     | some (.str c) => lookupFun (c ++ "." ++ d) env.prog
+     | _ => Option.none)
+  | _, _ => Option.none
+
+/-- comparison of values without user-defined operators -/
+def primCmp (op : CmpOp) (a b : Val K) : M (Val K) :=
+  match op with
+  | .eq => do pure (.bool (← primEq a b))
+  | .ne => do pure (.bool (!(← primEq a b)))
+  | .lt => do pure (.bool (← primLt a b))
+  | .le => do pure (.bool (← primLe a b))
+  | .gt => do pure (.bool (← primLt b a))
+  | .ge => do pure (.bool (← primLe b a))
+  | .is => do pure (.bool (← primIs a b))
+  | .isNot => do pure (.bool (!(← primIs a b)))
+  | .isIn =>
+    (match b with
+     | .list l => do pure (.bool (← memList a l))
+     | .dict ks _ => do pure (.bool (← memList a ks))
+     | _ => throw (.unsupported "in on a non-container"))
+  | .notIn =>
+    (match b with
+     | .list l => do pure (.bool (!(← memList a l)))
+     | .dict ks _ => do pure (.bool (!(← memList a ks)))
+     | _ => throw (.unsupported "in on a non-container"))
+
 mutual
 
 /-- expression evaluation -/
@@ -409,7 +444,7 @@ def eval (env : Env K) : Nat → Expr → Vars K → St K → M (Val K × St K)
     | .cmp op l r => do
       let (a, st) ← eval env n l vars st
       let (b, st) ← eval env n r vars st
-      compare env n op a b st
+      cmpVals env n op a b st
     | .ife c t e => do
       let (a, st) ← eval env n c vars st
       if truthy a then eval env n t vars st else eval env n e vars st
@@ -535,49 +570,21 @@ def callFun (env : Env K) : Nat → FunDef → List (Val K) → List (String × 
     | _ => pure (.none, st)
 
 /-- comparison operators (user-defined `__eq__`, `__lt__`, … of translated classes are called) -/
-def compare (env : Env K) : Nat → CmpOp → Val K → Val K → St K → M (Val K × St K)
+def cmpVals (env : Env K) : Nat → CmpOp → Val K → Val K → St K → M (Val K × St K)
   | 0, _, _, _, _ => throw .fuel
   | n+1, op, a, b, st =>
-    let dunder : Option String := match op with
-      | .eq => some "__eq__" | .ne => some "__ne__" | .lt => some "__lt__" | .le => some "__le__"
-      | .gt => some "__gt__" | .ge => some "__ge__" | _ => Option.none
-    let user : Option FunDef :=
-      match a, dunder with
-      | .ref addr, some d =>
-        (match st.heap addr "__class__" with
-         | some (.str c) => lookupFun (c ++ "." ++ d) env.prog
-         | _ => Option.none)
-      | _, _ => Option.none
-    match user with
+    match userMethod env st a (dunderOf op) with
     | some fd => callFun env n fd [a, b] [] [] st
     | Option.none =>
       match op with
-      | .eq => do pure (.bool (← primEq a b), st)
       | .ne =>
-        -- default `__ne__` inverts a user-defined `__eq__`
-        (match a with
-         | .ref addr =>
-           (match st.heap addr "__class__" with
-            | some (.str c) =>
-              (match lookupFun (c ++ ".__eq__") env.prog with
-               | some fd => do
-                 let (r, st) ← callFun env n fd [a, b] [] [] st
-                 pure (.bool (!truthy r), st)
-               | Option.none => do pure (.bool (!(← primEq a b)), st))
-            | _ => do pure (.bool (!(← primEq a b)), st))
-         | _ => do pure (.bool (!(← primEq a b)), st))
-      | .lt => do pure (.bool (← primLt a b), st)
-      | .le => do pure (.bool (← primLe a b), st)
-      | .gt => do pure (.bool (← primLt b a), st)
-      | .ge => do pure (.bool (← primLe b a), st)
-      | .is => do pure (.bool (← primIs a b), st)
-      | .isNot => do pure (.bool (!(← primIs a b)), st)
-      | .isIn | .notIn =>
-        let neg := match op with | .notIn => true | _ => false
-        match b with
-        | .list l => do pure (.bool ((← memList a l) != neg), st)
-        | .dict ks _ => do pure (.bool ((← memList a ks) != neg), st)
-        | _ => throw (.unsupported "in on a non-container")
+        -- the default `__ne__` inverts a user-defined `__eq__`
+        (match userMethod env st a (some "__eq__") with
+         | some fd => do
+           let (r, st) ← callFun env n fd [a, b] [] [] st
+           pure (.bool (!truthy r), st)
+         | Option.none => do pure ((← primCmp op a b), st))
+      | _ => do pure ((← primCmp op a b), st)
 
 /-- store into an assignment target -/
 def store (env : Env K) : Nat → Expr → Val K → Vars K → St K → M (Vars K × St K)
